@@ -72,13 +72,31 @@ var forbiddenCalls = []struct{ sub, why string }{
 var globalRandDraws = map[string]bool{"Int": true, "Intn": true, "Int31": true, "Int31n": true, "Int63": true, "Int63n": true, "Uint32": true, "Uint64": true,
 	"Float32": true, "Float64": true, "Perm": true, "Shuffle": true, "Str": true, "Bytes": true, "Uint16": true, "Int16": true, "Time": true, "Bool": true, "Uint": true, "Int32": true, "Int64": true}
 
+// hostZoneTime: the call returns a time.Time whose location is the host's (time.Local) or an arbitrary loaded one.
+func hostZoneTime(name string, call ssa.CallInstruction) bool {
+	switch name {
+	case "time.Unix", "time.UnixMilli", "time.UnixMicro", "(time.Time).Local", "time.ParseInLocation", "time.LoadLocation":
+		return true
+	case "(time.Time).In", "time.Date":
+		args := call.Common().Args
+		loc := args[len(args)-1]
+		if u, ok := loc.(*ssa.UnOp); ok {
+			if g, ok := u.X.(*ssa.Global); ok && g.Name() == "UTC" && g.Pkg.Pkg.Path() == "time" {
+				return false
+			}
+		}
+		return true
+	}
+	return false
+}
+
 func c06(r *core.Run) {
 	p := r.Prog
 	r.Explanation = "Determinism lint over every custom function reachable from consensus entry points (Msg handlers, BeginBlock, InitGenesis, wasm dispatcher, upgrade/migration code): no call to a nondeterministic source (wall clock except as a telemetry argument, process-global or crypto randomness, environment, files, network, goroutines, select); every range over a Go map has an order-insensitive body (or fills a slice that is sorted before use); every random generator object is seeded, on all paths before its first draw, from consensus data only; no float-typed value flows anywhere but logging/telemetry; no stored or emitted proto type has a map field; no custom wasm query plugin exists (gRPC queries are not consensus code)."
 	r.Assumptions = []string{T4, T5, "determinism of third-party libraries (SDK, tendermint, go-merkletree)"}
 	r.NotDecided = []string{"determinism of third-party libraries", "gas accounting equality"}
 	r.Rule("C06/R0", "gRPC/CLI queries are not consensus code: no custom wasm query plugin is registered")
-	r.Rule("C06/R1", "no forbidden source in scope: time.Now/Since (unless only a telemetry argument), package-level rand draws, crypto/rand, os env/files, net, uuid, go statements, select, %p formatting")
+	r.Rule("C06/R1", "no forbidden source in scope: time.Now/Since (unless only a telemetry argument), package-level rand draws, crypto/rand, os env/files, net, uuid, go statements, select, %p formatting, times in the host's zone (time.Unix*, Local, In/Date with a non-UTC location) unless used only through zone-independent methods")
 	r.Rule("C06/R2", "every range over a map in scope is order-insensitive: the body only updates maps, accumulates integers, deletes, or fills a slice that is sorted before any other use")
 	r.Rule("C06/R3", "RNG typestate: every generator drawn from in scope is created locally and Seed()ed before the first draw on all paths, with a seed ⊵ only Ctx.*, constants, parameters and store values")
 	r.Rule("C06/R4", "no float reaches state: float-typed values flow only into logging / telemetry / formatting")
@@ -139,6 +157,30 @@ func c06(r *core.Run) {
 					if f := x.Common().StaticCallee(); f != nil && f.Signature.Recv() == nil && globalRandDraws[f.Name()] &&
 						(strings.HasSuffix(core.FnPkgPath(f), "tendermint/libs/rand") || core.FnPkgPath(f) == "math/rand") {
 						r.Violation("C06/R1", core.FnName(fn)+":global-rand."+f.Name(), p.InstrPos(in), "draw from the process-global random generator (seeded from crypto/rand) on a consensus path")
+					}
+					// a time.Time carrying the host's time zone
+					if hostZoneTime(name, x) {
+						zoneFree := map[string]bool{"UTC": true, "Unix": true, "UnixNano": true, "UnixMilli": true, "UnixMicro": true, "Before": true, "After": true, "Equal": true, "Sub": true, "Add": true, "IsZero": true, "Compare": true}
+						leak := ""
+						if v, ok := in.(ssa.Value); ok && v.Referrers() != nil {
+							for _, ref := range *v.Referrers() {
+								rc, isCall := ref.(ssa.CallInstruction)
+								if isCall {
+									if f := rc.Common().StaticCallee(); f != nil && f.Signature.Recv() != nil && zoneFree[f.Name()] && len(rc.Common().Args) > 0 && rc.Common().Args[0] == v {
+										continue
+									}
+								}
+								if _, isDbg := ref.(*ssa.DebugRef); isDbg {
+									continue
+								}
+								leak = p.InstrPos(ref)
+							}
+						}
+						if leak != "" {
+							r.Violation("C06/R1", core.FnName(fn)+":host-time-zone:"+short(name), p.InstrPos(in), short(name)+" yields a time in the host's local zone and the value is used by something other than a zone-independent method (at "+leak+"): calendar arithmetic, formatting and stored bytes then differ between nodes in different zones")
+						} else {
+							r.Trivial("C06/R1", core.FnName(fn)+":host-time-zone-neutralised", p.InstrPos(in), "local-zone time used only through zone-independent methods (UTC, Unix, Before, ...)")
+						}
 					}
 					// %p formatting
 					if name == "fmt.Sprintf" || name == "fmt.Errorf" || name == "fmt.Printf" {
